@@ -1,4 +1,4 @@
 SPECIFICATION Spec
-CONSTANTS Proto = "http"  NoneOK = FALSE  AuthFirst = TRUE  KeepBuffered = TRUE  Cut = FALSE
+CONSTANTS Proto = "http"  NoneOK = FALSE  AuthFirst = TRUE  KeepBuffered = TRUE  SharedBuf = FALSE  Cut = FALSE
 INVARIANT PrintScn
 CHECK_DEADLOCK FALSE
